@@ -23,7 +23,8 @@ RULE = (
     "6-rule families; plus an extension universe of rule OPTIONS and declaration forms: per-rule strict_slashes / "
     "merge_slashes overrides, websocket rules, defaults, every rule wrapped in Submount / EndpointPrefix / "
     "Subdomain / RuleTemplate and nestings (also with the options set), converter argument forms (signed, min/max, "
-    "maxlength, quoted any-items, fixed_digits=3) - each alone and paired with plain base shapes (thorough: also with "
+    "maxlength, quoted any-items, fixed_digits=3; pairs of rules using one converter with the same option names and "
+    "different values) - each alone and paired with plain base shapes (thorough: also with "
     "each other); each map x strict_slashes x merge_slashes x EVERY insertion order; paths = every token sequence "
     "over per-position tokens derived from the map's own segments (witnesses and near-misses of each converter, "
     "the literals, a miss token), each with trailing '/', '//', '///', doubled / tripled inner slashes, leading "
@@ -197,7 +198,40 @@ def ext_descriptors(tier):
             yield ("ext", (i, j), (None, None))
 
 
+# the same converter with the same option NAMES and different VALUES in one map (converters must not be shared
+# between rules by option names): at different literal prefixes, and competing at the same position
+OPT_VALUE_PAIRS = [("string(length=2)", "string(length=3)"), ("string(minlength=2)", "string(minlength=3)"),
+                   ("string(maxlength=2)", "string(maxlength=3)"), ("int(fixed_digits=2)", "int(fixed_digits=3)"),
+                   ("int(min=2,max=9)", "int(min=10,max=99)"), ("any(a,b)", 'any(a,"b-c")')]
+
+
+def _raw_maps():
+    out = []
+    for c1, c2 in OPT_VALUE_PAIRS:
+        out.append([rr.spec((lit("a"), var(c1)), False), rr.spec((lit("b"), var(c2, "y")), False)])
+        out.append([rr.spec((var(c1),), False), rr.spec((var(c2, "y"),), True)])
+        out.append([rr.spec((lit("a"), var(c1)), True), rr.spec((var("string", "s"), var(c2, "y")), False)])
+    return out
+
+
+RAW_MAPS = _raw_maps()
+
+
+def raw_descriptors(tier):
+    for i in range(len(RAW_MAPS)):
+        yield ("raw", i, (None, None))
+        yield ("raw", i, (G, P))
+
+
 def ext_specs(desc):
+    if desc[0] == "raw":
+        out = []
+        for k, (sp, ms) in enumerate(zip(RAW_MAPS[desc[1]], desc[2])):
+            sp = dict(sp)
+            sp["methods"] = ms
+            sp["endpoint"] = f"e{k}"
+            out.append(sp)
+        return out
     _tag, ids, methods = desc
     out = []
     for k, (i, ms) in enumerate(zip(ids, methods)):
@@ -250,6 +284,7 @@ def units(tier):
         (big if len(d[0]) >= 4 else small).append(d)
     out = [("maps", c) for c in gen.chunked(small, 8 if tier == "quick" else 16)]
     out += [("maps", c) for c in gen.chunked(ext_descriptors(tier), 8 if tier == "quick" else 16)]
+    out += [("maps", c) for c in gen.chunked(raw_descriptors(tier), 6)]
     # a map of k rules has k! insertion orders: split the orders of big maps over several units
     for d in big:
         k = len(d[0])
@@ -262,7 +297,7 @@ def units(tier):
 # ------------------------------------------------------------------ specs / paths
 
 def specs_for(desc):
-    if desc[0] == "ext":
+    if desc[0] in ("ext", "raw"):
         return ext_specs(desc)
     shapes, methods = desc
     return [rr.spec(SHAPES[si][0], SHAPES[si][1], methods=ms, endpoint=f"e{k}")
@@ -446,6 +481,8 @@ def history_wanted(desc, tier, strict, merge):
     global HIST_SHAPES
     if HIST_SHAPES is None:
         HIST_SHAPES = {IDX[x] for x in REDUCED_THOROUGH}
+    if desc[0] == "raw":
+        return strict and merge
     if desc[0] == "ext":
         return tier == "thorough" and strict and merge and len(desc[1]) == 2
     shapes, methods = desc
